@@ -2060,7 +2060,7 @@ seq_t dtw_warping_paths_affinity_ndim(seq_t *wps,
         wpsi = 1; // index for min_ci
         if (only_triu) {
             if (ci < ri) {
-                for (; ci<ri; ci++) {
+                for (; ci<ri && ci<max_ci; ci++) {
                     wps[ri_width + wpsi] = -INFINITY;
                     wpsi++;
                 }
@@ -2107,7 +2107,7 @@ seq_t dtw_warping_paths_affinity_ndim(seq_t *wps,
         ci = min_ci;
         if (only_triu) {
             if (ci < ri) {
-                for (; ci<ri; ci++) {
+                for (; ci<ri && ci<max_ci; ci++) {
                     wps[ri_width + wpsi] = -INFINITY;
                     wpsi++;
                 }
@@ -2153,7 +2153,7 @@ seq_t dtw_warping_paths_affinity_ndim(seq_t *wps,
         wpsi = 1;
         if (only_triu) {
             if (ci < ri) {
-                for (; ci<ri; ci++) {
+                for (; ci<ri && ci<max_ci; ci++) {
                     wps[ri_width + wpsi] = -INFINITY;
                     wpsi++;
                 }
@@ -2209,7 +2209,7 @@ seq_t dtw_warping_paths_affinity_ndim(seq_t *wps,
         }
         if (only_triu) {
             if (ci < ri) {
-                for (; ci<ri; ci++) {
+                for (; ci<ri && ci<l2; ci++) {
                     wps[ri_width + wpsi] = -INFINITY;
                     wpsi++;
                 }
@@ -2397,7 +2397,7 @@ seq_t dtw_warping_paths_affinity_ndim_euclidean(seq_t *wps,
         wpsi = 1; // index for min_ci
         if (only_triu) {
             if (ci < ri) {
-                for (; ci<ri; ci++) {
+                for (; ci<ri && ci<max_ci; ci++) {
                     wps[ri_width + wpsi] = -INFINITY;
                     wpsi++;
                 }
@@ -2445,7 +2445,7 @@ seq_t dtw_warping_paths_affinity_ndim_euclidean(seq_t *wps,
         ci = min_ci;
         if (only_triu) {
             if (ci < ri) {
-                for (; ci<ri; ci++) {
+                for (; ci<ri && ci<max_ci; ci++) {
                     wps[ri_width + wpsi] = -INFINITY;
                     wpsi++;
                 }
@@ -2492,7 +2492,7 @@ seq_t dtw_warping_paths_affinity_ndim_euclidean(seq_t *wps,
         wpsi = 1;
         if (only_triu) {
             if (ci < ri) {
-                for (; ci<ri; ci++) {
+                for (; ci<ri && ci<max_ci; ci++) {
                     wps[ri_width + wpsi] = -INFINITY;
                     wpsi++;
                 }
@@ -2549,7 +2549,7 @@ seq_t dtw_warping_paths_affinity_ndim_euclidean(seq_t *wps,
         }
         if (only_triu) {
             if (ci < ri) {
-                for (; ci<ri; ci++) {
+                for (; ci<ri && ci<l2; ci++) {
                     wps[ri_width + wpsi] = -INFINITY;
                     wpsi++;
                 }
